@@ -46,4 +46,13 @@ man = {
     "notes": "See DESIGN.md. ./check Cxx --tier quick|thorough. known_findings.json lists recorded defects.",
 }
 json.dump(man, open(os.path.join(R, "MANIFEST.json"), "w"), indent=1)
-print("claimed", len(checks), "unclaimed", len(not_app))
+# known findings: merge fragments known_findings.d/*.json into the committed file
+kf = {"findings": [], "fixed": []}
+for fp in sorted(glob.glob(os.path.join(R, "known_findings.d", "*.json"))):
+    frag = json.load(open(fp))
+    for f in frag.get("findings", []):
+        kf["findings"].append(f)
+    for f in frag.get("fixed", []):
+        kf["fixed"].append(f)
+json.dump(kf, open(os.path.join(R, "known_findings.json"), "w"), indent=1)
+print("claimed", len(checks), "unclaimed", len(not_app), "open findings", len(kf["findings"]), "fixed", len(kf["fixed"]))
